@@ -224,7 +224,22 @@ async fn exchange(server: &mut BoxRw, client: &mut BoxRw, r: &mut Rng, seen: &mu
             let mut off = 0;
             while off < d2.len() {
                 let k = (1 + splits.usize(9000)).min(d2.len() - off);
-                w.write_all(&d2[off..off + k]).await?;
+                if splits.chance(1, 3) {
+                    // scatter/gather form of the same write
+                    let end = off + k;
+                    let mut at = off;
+                    while at < end {
+                        let mid = at + (end - at) / 2;
+                        let bufs = [std::io::IoSlice::new(&d2[at..mid]), std::io::IoSlice::new(&d2[mid..end])];
+                        let n = w.write_vectored(&bufs).await?;
+                        if n == 0 {
+                            return Err(std::io::Error::new(std::io::ErrorKind::WriteZero, "write_vectored returned 0"));
+                        }
+                        at += n;
+                    }
+                } else {
+                    w.write_all(&d2[off..off + k]).await?;
+                }
                 off += k;
             }
             w.flush().await
